@@ -107,10 +107,10 @@ def allowed_bins(cls, cfg, N, nfft, cplx, window=None):
     return int(np.ceil(2.0 * nfft / N)) + 1
 
 
-def check_basic(cls, x, cfg, NFFT, sampling, cplx):
+def check_basic(cls, x, cfg, NFFT, sampling, cplx, route='fresh'):
     """the clauses every default PSD must meet; returns list of (clause, what)"""
     bad = []
-    p = E.build(cls, x, cfg, NFFT=NFFT, sampling=sampling, scale_by_freq=False)
+    p = E.build(cls, x, cfg, NFFT=NFFT, sampling=sampling, scale_by_freq=False, route=route)
     psd = np.asarray(p.psd); f = np.asarray(p.frequencies())
     nfft = resolve_nfft(NFFT, len(x))
     want = nfft if cplx else (nfft // 2 + 1 if nfft % 2 == 0 else (nfft + 1) // 2)
@@ -205,7 +205,7 @@ def replay(rep):
         x = vlib.unhexv(r['x'])
         if r['datatype'] == 'real':
             x = np.real(x)
-        return not check_basic(r['estimator'], x, r['cfg'], r['NFFT'], r['sampling'], r['datatype'] == 'complex')[0]
+        return not check_basic(r['estimator'], x, r['cfg'], r['NFFT'], r['sampling'], r['datatype'] == 'complex', r.get('route', 'fresh'))[0]
     except Exception:
         return False
 
@@ -293,6 +293,9 @@ def run(ctx):
         cplx = bool((it // len(E.CLASSES)) % 2); N = int(rng.integers(16, 50))
         x, kind = E.gen_data(rng, N, cplx)
         cfg = E.default_cfg(cls, N, rng, cplx)
+        if cls == 'pcorrelogram' and rng.integers(0, 2):
+            cfg['lag'] = int(rng.integers(N // 2, N))          # long lags of the documented domain lag < N (2*lag+1 may exceed NFFT)
+        route = E.pick_route(rng); ctx.count('basic/route/%s' % route)
         NFFT = [None, 'nextpow2', N + 2 + (N % 2), N + 3 + (N % 2), 2 * N, 2 * N + 1][int(rng.integers(0, 6))]
         if cls == 'pminvar' and isinstance(NFFT, int):
             NFFT = max(NFFT, 2 * cfg['order'])
@@ -301,9 +304,9 @@ def run(ctx):
         ctx.count('basic/%s/%s/NFFT=%s' % (cls, tag, NFFT if not isinstance(NFFT, int) else ('even' if NFFT % 2 == 0 else 'odd')))
         ctx.case(('basic', cls, json.dumps(jcfg(cfg), sort_keys=True), str(NFFT), sampling, x.tobytes()), nontrivial=True,
                  sample={'clause': 'basic', 'estimator': cls, 'cfg': jcfg(cfg), 'N': N, 'NFFT': NFFT, 'sampling': sampling, 'datatype': tag, 'kind': kind})
-        rep = {'what': 'basic', 'estimator': cls, 'cfg': jcfg(cfg), 'NFFT': NFFT, 'sampling': sampling, 'x': vlib.hexv(np.asarray(x, dtype=complex)), 'datatype': tag}
+        rep = {'what': 'basic', 'estimator': cls, 'cfg': jcfg(cfg), 'NFFT': NFFT, 'sampling': sampling, 'x': vlib.hexv(np.asarray(x, dtype=complex)), 'datatype': tag, 'route': route}
         try:
-            bad, _ = check_basic(cls, x, cfg, NFFT, sampling, cplx)
+            bad, _ = check_basic(cls, x, cfg, NFFT, sampling, cplx, route)
         except Exception as e:
             bad = [('raises', 'raised %s: %s' % (type(e).__name__, str(e)[:100]))]
         for clause, what in bad:
